@@ -21,7 +21,7 @@ TARGETS = ["m/s^2", "km/s^2", "N/kg", "m/s/s", "ft/s^2", "m/s", "km/h", "N", "J"
 
 def gen_query(rng, V, plain_facts, unit_facts, short=()):
     """Returns (text, tree) where tree leaves are ('num', F) | ('fact', phrase) | ('q', si, dims)."""
-    nf = rng.randint(1, 4)
+    nf = rng.choice([1, 2, 2, 3, 3, 4, 4, 4, 9, 17, 33])      # mostly 1-4 fact phrases, now and then dozens
     used = []
     def leaf():
         r = rng.random()
@@ -160,6 +160,15 @@ def shard(p):
             queries.append(gen_query(rng, V, plain, unitf, short))
         for g in ["zzqqxx", "qqq jjj", "population zzzz"]:
             queries.append((g, None))
+        # several failing parts in ONE call or operation (round(zzzz, qqqq), (1 / 0) + (zzqq)): which error is reported, and
+        # where, must not depend on whether descriptions are on (seed C18-e)
+        fails = ["zzzz", "qqqq", "1 / 0", "1 m + 1 s", "earth NOT", "0 ^ -1", "nosuchfn(1)", "floor()", "2 ^ 1.5", "1 xyzunit"]
+        for _ in range(40):
+            a, b, c = (rng.choice(fails + plain[:20]) for _ in range(3))
+            e1, e2 = rng.choice(fails + ["2", "-1"]), rng.choice(fails + ["2", "0"])     # digit arguments: failing parts or small literals only (round(x, 1e9) just runs long)
+            form = rng.choice(["round(%s, %s)" % (a, e1), "round(%s, %s, %s)" % (a, e1, e2), "(%s) + (%s)" % (a, b), "(%s) * (%s) / (%s)" % (a, b, c),
+                               "floor(%s) - ceil(%s)" % (a, b), "round((%s) * (%s), (%s))" % (a, b, e2)])
+            queries.append((form, None))
         # cast matrix: every short phrase (and a slice of the fact phrases) x every usual cast target, this shard's share of it
         matrix = [(w, t) for w in short + phrases[:: max(1, len(phrases) // 60)] for t in TARGETS]
         n_generated = len(queries)
@@ -210,7 +219,7 @@ def shard(p):
             events = rep.get("events") or []
             acc.count("lookup_events", len(events))
             acc.count("lookup_hits", sum(1 for e in events if e["hit"] is not None))
-            values = [("ok", it["ok"]["v"], it["ok"]["u"]) if "ok" in it else ("err", it["err"]["msg"]) for it in items]
+            values = [("ok", it["ok"]["v"], it["ok"]["u"]) if "ok" in it else ("err", it["err"]["msg"], it["err"]["start"], it["err"]["end"]) for it in items]
             case["observed"] = {"values": values, "descriptions": [(x["phrase"], x["description"]) for x in descs], "events": events}
             # trace specification
             want = [(e["phrase"], e["hit"]) for e in events if e["hit"] is not None]
